@@ -295,8 +295,27 @@ func cmdCheck(args []string) int {
 		}
 		return 0
 	}
+	// The lock is compared at the granularity of contract clauses: conjunct ordinals (".3") and the ordinals of
+	// safety sites (nil#7, bounds#2, ...) shift under harmless edits of a function body, so a locked safety site only
+	// requires that its function still generates obligations, and a locked clause that it is still generated in
+	// some form. What the lock catches is code under contract that was removed, renamed or restructured so that a
+	// clause no longer applies.
+	genClause := map[string]bool{}
+	genFunc := map[string]bool{}
+	for n := range generated {
+		genClause[lockClause(n)] = true
+		if i := strings.Index(n, "/"); i >= 0 {
+			genFunc[n[:i]] = true
+		}
+	}
 	for _, n := range lock[*prop] {
-		if !generated[n] {
+		ok := generated[n] || genClause[lockClause(n)]
+		if !ok && isSafetySite(n) {
+			if i := strings.Index(n, "/"); i >= 0 {
+				ok = genFunc[n[:i]]
+			}
+		}
+		if !ok {
 			if isKnown(n) != nil {
 				continue
 			}
@@ -418,4 +437,46 @@ func slowest(all []*Obligation, n int) []map[string]any {
 		out = append(out, map[string]any{"obligation": o.Name, "path": o.Path, "seconds": round2(o.Secs), "status": o.Status, "solver": o.Solver})
 	}
 	return out
+}
+
+// lockClause strips the conjunct ordinal from an obligation name ("f/ensures#label.3" -> "f/ensures#label").
+func lockClause(n string) string {
+	// call-site ordinals ("pre:callee@3#label") shift when a call is added or removed
+	if j := strings.Index(n, "@"); j >= 0 {
+		k := j + 1
+		for k < len(n) && n[k] >= '0' && n[k] <= '9' {
+			k++
+		}
+		if k > j+1 {
+			n = n[:j] + n[k:]
+		}
+	}
+	i := strings.LastIndex(n, ".")
+	if i < 0 || i < strings.LastIndex(n, "#") || i+1 >= len(n) {
+		return n
+	}
+	for _, c := range n[i+1:] {
+		if c < '0' || c > '9' {
+			return n
+		}
+	}
+	return n[:i]
+}
+
+// isSafetySite: obligations named by the ordinal of a site in the function body rather than by a contract clause.
+func isSafetySite(n string) bool {
+	i := strings.Index(n, "/")
+	if i < 0 {
+		return false
+	}
+	k := n[i+1:]
+	if j := strings.LastIndex(k, ":"); j >= 0 && !strings.HasPrefix(k, "pre:") && !strings.HasPrefix(k, "nil-recv:") && !strings.HasPrefix(k, "propagate") {
+		k = k[j+1:] // inlined callee prefix "callee:nil#3"
+	}
+	for _, p := range []string{"nil#", "bounds#", "typeassert#", "make#", "unreachable#", "frame#", "typeinv-", "div#", "slice#", "nil-recv:", "shift#", "conv#", "yield:", "propagate"} {
+		if strings.HasPrefix(k, p) {
+			return true
+		}
+	}
+	return false
 }
